@@ -5,13 +5,15 @@
     instance on every run. *)
 From Coq Require Import NArith ZArith QArith List Bool.
 From SV Require Import Bin.Struct Fmt.DmxCodes Fmt.DmxCodesProofs Fmt.DmxBin Fmt.DmxBinProofs Fmt.DmxKv1 Fmt.DmxKv1Proofs
-  Fmt.DmxScalar Fmt.DmxScalarProofs Gen.DmxCodes_gen.
+  Fmt.DmxScalar Fmt.DmxScalarProofs Text.Str Text.Escape Text.Tokenizer Text.TokGen Fmt.DmxKv2 Fmt.DmxKv2Proofs Fmt.DmxKv2Inst Gen.DmxCodes_gen.
 Import ListNotations.
 
 (** The premises of the theorems below, for the configuration generated from today's source.  The check proves
     [c14_instance_premises = true] part by part (named instance obligations) on every run. *)
 Definition c14_instance_premises : bool :=
-  bin_cfg_ok gen_cfg && kv1_cfg_ok gen_kv1 && scalar_cfg_ok gen_scalar && sizes_match_formats gen_scalar gen_cfg.
+  bin_cfg_ok gen_cfg && kv1_cfg_ok gen_kv1 && scalar_cfg_ok gen_scalar && sizes_match_formats gen_scalar gen_cfg &&
+  rtable_ok gen_ref_scalar && rtable_ok gen_ref_array &&
+  kv2_tables_ok gen_tables && kv2_opts_ok gen_kv2_opts && vtnames_ok gen_tables gen_fold gen_vtnames.
 
 (** The attribute type byte: encode then decode gives back the value type and the scalar/array flag, for all 14
     types and both shapes. *)
@@ -128,3 +130,46 @@ Theorem scalar_matrix_unpadded_read_refuted :
   (mat_cells_read_where_written bad_mat_scalar = false) /\
   mat_unpack (sc_mat_unpack bad_mat_scalar) (mat_pack (sc_mat_pack bad_mat_scalar) [1;2;3;4;5;6;7;8;9]%N) <> [1;2;3;4;5;6;7;8;9]%N.
 Proof. exact matrix_unpadded_read_refuted. Qed.
+
+(** * KeyValues2 *)
+
+(** How [_export_kv2] writes an element value: a decision table (if / elif / else chain over is_null, is_stub,
+    uuid-in-roots) that meets the named condition decides exactly as the format needs — NULL as the empty
+    reference, stubs and top-level elements by UUID reference, the rest inline — and two such tables agree. *)
+Theorem kv2_reference_decision : forall t, rtable_ok t = true ->
+  forall is_null is_stub in_roots, decide t is_null is_stub in_roots = Some (ref_spec is_null is_stub in_roots).
+Proof. exact rtable_ok_sound. Qed.
+Theorem kv2_reference_sites_agree : forall a b, rtables_agree a b = true ->
+  forall is_null is_stub in_roots, decide a is_null is_stub in_roots = decide b is_null is_stub in_roots.
+Proof. exact rtables_agree_sound. Qed.
+(** Dropping [or child.is_stub] at one site is refuted: a non-root stub would be written inline. *)
+Theorem kv2_stub_written_inline_refuted :
+  (rtable_ok no_stub_rtable = false) /\ (rtables_agree pinned_rtable no_stub_rtable = false) /\
+  decide no_stub_rtable false true false = Some AInline.
+Proof. exact stub_inline_refuted. Qed.
+
+(** The tokenizer (the real [_get_token] model of C02) run over the text the flat-layout writer emits gives exactly
+    the writer's tokens, in order, then EOF: quoted escaped names and values come back as the strings (C02's
+    [quoted_embedding]), [CR LF] as one NEWLINE, braces / brackets / commas as themselves, leading tabs vanish. *)
+Theorem kv2_tokens_roundtrip : forall (T : tables) (o : opts) (fold : str -> str) (vtnames : list str),
+  kv2_tables_ok T = true -> kv2_opts_ok o = true -> vtnames_ok T fold vtnames = true ->
+  forall d, doc_ok T vtnames d = true -> tokenize T o (render_doc T d) = Some (toks_of (lex_doc d)).
+Proof. exact kv2_tokens_roundtrip_gen. Qed.
+
+(** KeyValues2, flat layout, at the level of the text: parsing the exported text of any document (elements with
+    type, id, name; attributes with any name, a type keyword, scalar or array shape, value strings in order, NULL and
+    UUID references, empty arrays) gives back the document. *)
+Theorem kv2_flat_roundtrip : forall (T : tables) (o : opts) (fold : str -> str) (vtnames : list str),
+  kv2_tables_ok T = true -> kv2_opts_ok o = true -> vtnames_ok T fold vtnames = true ->
+  forall d, doc_ok T vtnames d = true -> parse_text T o fold vtnames (render_doc T d) = Some d.
+Proof. exact kv2_flat_roundtrip_gen. Qed.
+
+Theorem kv2_premises_satisfiable :
+  kv2_tables_ok pinned_tables && kv2_opts_ok pinned_kv2_opts && vtnames_ok pinned_tables (fun s => s) pinned_vtnames &&
+  doc_ok pinned_tables pinned_vtnames ex_kdoc = true.
+Proof. exact kv2_premises_example. Qed.
+(** A name written without escape_text that contains a quote does not re-tokenise. *)
+Theorem kv2_unescaped_name_refuted :
+  tokenize pinned_tables pinned_kv2_opts (render_lex pinned_tables [([], LRaw [97; 34; 98]); ([], LNl)])
+  <> Some (toks_of [([], LRaw [97; 34; 98]); ([], LNl)]).
+Proof. exact kv2_raw_name_refuted. Qed.
